@@ -8,6 +8,7 @@ import (
 	"sort"
 	"strconv"
 	"time"
+	"unsafe"
 
 	"github.com/echovault/sugardb/internal/config"
 	"github.com/echovault/sugardb/internal/modules/set"
@@ -29,6 +30,7 @@ type VerifEntry struct {
 	Set      []string          // sorted members
 	ZSet     map[string]float64
 	ExpireAt int64 // unix ms, 0 = none
+	Mem      int64 // what the entry contributes to the memory figure (KeyData.GetMem + key header + key bytes)
 }
 
 // VerifState is a deep copy of everything the harness compares.
@@ -106,6 +108,9 @@ func (server *SugarDB) VerifDump() VerifState {
 				}
 			default:
 				e.Kind, e.Str = verifScalar(v)
+			}
+			if m, err := kd.GetMem(); err == nil {
+				e.Mem = m + int64(unsafe.Sizeof(k)) + int64(len(k))
 			}
 			out[k] = e
 		}
